@@ -691,6 +691,15 @@ theorem atFork_paths {c : Cl} {T : List Ev} (h : AtFork c T) : ∀ e ∈ T, e.pa
     · exact ho.path
     · exact hS.path e x
 
+theorem atFork_kind {c : Cl} {T : List Ev} (h : AtFork c T) : ∀ e ∈ T, ∃ b sw, e.kind = .commit b sw := by
+  cases h with
+  | bystander _ _ _ _ hS => intro e he; obtain ⟨b, sw, hk, _⟩ := hS.kind e he; exact ⟨b, sw, hk⟩
+  | committer o S _ _ _ _ ho hS _ hT =>
+    intro e he
+    rcases List.mem_cons.mp ((hT e).mp he) with rfl | x
+    · exact ho.kind
+    · obtain ⟨b, sw, hk, _⟩ := hS.kind e x; exact ⟨b, sw, hk⟩
+
 theorem atFork_secrets {c : Cl} {T : List Ev} (h : AtFork c T) : SecretsOK c.g := by
   cases h with
   | bystander _ _ hsec _ _ => exact hsec
